@@ -45,6 +45,8 @@ func ghost_rd_pos(r io.Reader) int        { panic("ghost") }
 func ghost_old_rd_pos(r io.Reader) int    { panic("ghost") }
 func ghost_rd_len(r io.Reader) int        { panic("ghost") }
 func ghost_rd_at(r io.Reader, i int) byte { panic("ghost") }
+func ghost_ioerr() error                  { panic("ghost") } // the first transport failure of this call, if any
+func ghost_old_ioerr() error              { panic("ghost") }
 
 // maskBytes uses unsafe word-at-a-time XOR: its contract is assumed (see the evidence's trusted base)
 //@ trusted maskBytes
@@ -141,6 +143,11 @@ func ens_write_latch(c *Conn, frameType int, ret0 error) bool {
 	return true
 }
 
+//@ ensures (*Conn).write C15.latch.failed-write
+func ens_write_failed(c *Conn) bool {
+	return ghost_ioerr() == nil || ghost_old_ioerr() != nil || c.writeErr != nil
+}
+
 //@ assigns (*Conn).write c.writeErr, c.writeErrMu, ghost.lock(c.mu), ghost.wr(c.conn), ghost.ioerr
 
 //@ requires (*Conn).WriteControl
@@ -189,6 +196,17 @@ func ens_wc_header(c *Conn, messageType int, data []byte, ret0 error) bool {
 	}
 	return ghost_wr_at(w, o) == 0x80|byte(messageType) && ghost_wr_at(w, o+1) == b1
 }
+
+// a transport write that failed during the call leaves the sticky write error set: the frame may have been cut short,
+// so nothing may follow it on the wire (whatever the kind of frame and of error)
+//@ ensures (*Conn).WriteControl C15.latch.failed-write
+func ens_wc_failed(c *Conn) bool {
+	return ghost_ioerr() == nil || ghost_old_ioerr() != nil || c.writeErr != nil
+}
+
+// the write deadline of data frames belongs to the (single) data-writing goroutine, which sets it without a lock:
+// a control sender, which may be any goroutine, never looks at it
+//@ never-reads (*Conn).WriteControl Conn.writeDeadline C15.writer-owned-deadline
 
 //@ assigns (*Conn).WriteControl c.writeErr, c.writeErrMu, ghost.lock(c.mu), ghost.wr(c.conn), ghost.ioerr
 
@@ -886,7 +904,7 @@ func req_newConnBRW(conn net.Conn, brw *bufio.ReadWriter, readBufferSize, writeB
 //@ trusted (*Conn).SetPongHandler
 //@ assigns (*Conn).SetPongHandler c.handlePong
 
-//@ ensures newConnBRW C14.newconn.read-buffer
+//@ ensures newConnBRW C14.newconn.read-buffer C13.newconn.read-buffer
 func ens_newConnBRW(ret0 *Conn) bool {
 	return ret0 != nil && ret0.br != nil && ghost_rd_bufsize(ret0.br) >= maxControlFramePayloadSize
 }
